@@ -89,6 +89,11 @@ fn deporder_embedded(case: &Value) -> Value {
     let (deps, items) = graph_of(case);
     let which = gets(case, "which");
     let n = deps.len();
+    // `form` varies HOW a dependency is expressed and what a leaf looks like (the orderers must not care):
+    //   gds:    0 struct references, 1 array references, 2 both kinds mixed, each target also referenced twice
+    //   raw / tetris: 0 layouts everywhere, 1 cells without dependencies have only an abstract view (no layout),
+    //                 2 every dependency instantiated twice, leaves carry both views
+    let form = case.get("form").and_then(|f| f.as_i64()).unwrap_or(0);
     match which {
         "raw" => {
             use layout21raw as raw;
@@ -97,12 +102,18 @@ fn deporder_embedded(case: &Value) -> Value {
                 let mut layout = raw::Layout::default();
                 layout.name = name(i);
                 for (k, d) in deps[i - 1].iter().enumerate() {
-                    layout.insts.push(raw::Instance {
-                        inst_name: format!("i{}", k), cell: cells[*d - 1].clone(),
-                        loc: raw::Point::new(0, 0), reflect_vert: false, angle: None,
-                    });
+                    for rep in 0..(if form == 2 { 2 } else { 1 }) {
+                        layout.insts.push(raw::Instance {
+                            inst_name: format!("i{}_{}", k, rep), cell: cells[*d - 1].clone(),
+                            loc: raw::Point::new(0, 0), reflect_vert: false, angle: None,
+                        });
+                    }
                 }
-                cells[i - 1].write().unwrap().layout = Some(layout);
+                let leaf = deps[i - 1].is_empty();
+                let outline = raw::Polygon { points: vec![raw::Point::new(0, 0), raw::Point::new(5, 0), raw::Point::new(5, 5), raw::Point::new(0, 5)] };
+                let mut c = cells[i - 1].write().unwrap();
+                if leaf && form >= 1 { c.abs = Some(raw::Abstract::new(name(i), outline)); }
+                if !(leaf && form == 1) { c.layout = Some(layout); }
             }
             let mut lib = raw::Library::new("lib", raw::Units::Nano);
             for it in &items { lib.cells.push(cells[*it - 1].clone()); }
@@ -146,8 +157,15 @@ fn deporder_embedded(case: &Value) -> Value {
             let mut lib = GdsLibrary::new("lib");
             for it in &items {
                 let mut s = GdsStruct::new(name(*it));
-                for d in &deps[*it - 1] {
-                    s.elems.push(GdsElement::GdsStructRef(GdsStructRef { name: name(*d), xy: GdsPoint::new(0, 0), ..Default::default() }));
+                for (k, d) in deps[*it - 1].iter().enumerate() {
+                    let sref = GdsElement::GdsStructRef(GdsStructRef { name: name(*d), xy: GdsPoint::new(0, 0), ..Default::default() });
+                    let aref = GdsElement::GdsArrayRef(GdsArrayRef { name: name(*d), xy: [GdsPoint::new(0, 0), GdsPoint::new(20, 0), GdsPoint::new(0, 10)],
+                        cols: 2, rows: 1, ..Default::default() });
+                    match form {
+                        0 => s.elems.push(sref),
+                        1 => s.elems.push(aref),
+                        _ => { if k % 2 == 0 { s.elems.push(aref); s.elems.push(sref); } else { s.elems.push(sref.clone()); s.elems.push(sref); } }
+                    }
                 }
                 lib.structs.push(s);
             }
@@ -165,12 +183,17 @@ fn deporder_embedded(case: &Value) -> Value {
             for i in 1..=n {
                 let mut layout = t::layout::Layout::new(name(i), 0, t::outline::Outline::rect(10, 10).unwrap());
                 for (k, d) in deps[i - 1].iter().enumerate() {
-                    layout.instances.add(t::instance::Instance {
-                        inst_name: format!("i{}", k), cell: cells[*d - 1].clone(),
-                        loc: (k as isize, 0isize).into(), reflect_horiz: false, reflect_vert: false,
-                    });
+                    for rep in 0..(if form == 2 { 2 } else { 1 }) {
+                        layout.instances.add(t::instance::Instance {
+                            inst_name: format!("i{}_{}", k, rep), cell: cells[*d - 1].clone(),
+                            loc: (k as isize, rep as isize).into(), reflect_horiz: false, reflect_vert: false,
+                        });
+                    }
                 }
-                cells[i - 1].write().unwrap().layout = Some(layout);
+                let leaf = deps[i - 1].is_empty();
+                let mut c = cells[i - 1].write().unwrap();
+                if leaf && form >= 1 && which == "tetris" { c.abs = Some(t::abs::Abstract::new(name(i), 0, t::outline::Outline::rect(10, 10).unwrap())); }
+                if !(leaf && form == 1 && which == "tetris") { c.layout = Some(layout); }
             }
             let mut lib = t::library::Library::new("lib");
             for it in &items { lib.cells.push(cells[*it - 1].clone()); }
